@@ -93,8 +93,8 @@ theorem hprod_f (env : Env) (w : World) (F : List Fault) (b : Bool)
   have hidleAt : (w.running[x]).sc.idleAt ≠ none := by
     intro hnone
     unfold effRt probeOf at hexp
-    cases hrf : f.rtFail <;> cases hos : f.outOfSync <;>
-      simp [hrf, hos, rtOf, Sidecar.runtime, idleOf, hnone] at hexp
+    cases hrf : f.rtFail <;> cases hos : f.outOfSync <;> cases hpk : f.pushOk <;>
+      simp [hrf, hos, hpk, rtOf, Sidecar.runtime, idleOf, hnone] at hexp
   have hst : (w.running[x]).sc.status = [] := by
     cases hstat : (w.running[x]).sc.status with
     | nil => rfl
